@@ -12,6 +12,7 @@ CONSTANTS Family = "bsc"
           MaxStored = 5
           MaxLen = 6
           EmitOn = TRUE
+          TwoBranch = FALSE
           TraceLen = 0
 VIEW View
 INVARIANT PropC29
